@@ -45,11 +45,12 @@ PROPS = {
         explanation='Bounded stand-in only (no deductive obligation).',
     ),
     'C09': dict(
-        v=[], k=[], b=['c09_reltx'],
+        v=['C09_locks'], k=[], b=['c09_reltx'],
+        pairs={'C09_locks': ['bounded:c09_reltx']},
         level='other',
-        technique='bounded native contract checks of relational transactions (rollback/commit views incl. indexed reads, lock exclusion, all-or-nothing locking, phase rules) over all short scripts of two interleaved transactions; the lock manager uses DashMap/parking_lot and is outside the Verus/Kani subset',
+        technique='Verus: the row lock table kernel RowLockManager::{try_lock, release} extracted from relational_engine/src/transaction.rs and proved (refusal on a live foreign lock changes nothing, grants are all-or-nothing with frame, every granted row is listed for the transaction, release removes exactly the listed locks of that transaction); bounded native contract checks of relational transactions (rollback/commit views incl. indexed reads, lock exclusion at statement level, lock takeover after expiry, phase rules) over all short scripts of two interleaved transactions',
         claim='BOUNDED: on all single-transaction scripts <= 3 statements and all interleavings with one statement of a second transaction: rollback restores rows and every indexed read, commit equals non-transactional execution, modified rows conflict, multi-row lock acquisition is all-or-nothing, finished transactions are unusable, locks are released. Threads not covered.',
-        explanation='Bounded stand-in only.',
+        explanation='Lock table kernel proved; statement-level behaviour (which rows a statement locks, undo) bounded. Threads not covered.',
     ),
     'C10': dict(
         v=['C10_fold', 'C10_walfile', 'C01_raft'], k=[], b=['c10_raftwal'],
